@@ -38,17 +38,17 @@ META = {
     "C03": dict(
         level_text="Generated histories with replay operators; after every operation the uniqueness of transaction and vertex hashes over live+checkpoint and the exactness of the transaction index are recomputed from the snapshot.",
         design_ref="DESIGN.md §4 C03",
-        level_note="Concurrent duplicates are sampled (3 parallel deliveries / proposal batches), not enumerated.",
+        level_note="Concurrent duplicates are sampled, not enumerated: 3 parallel deliveries of one vertex, proposal batches, and one fresh transaction offered at once as two differently sealed vertices and/or as 2-3 bare proposals.",
         technique="stateful property-based testing (rapid) with duplicate/replay operators, snapshot invariants",
     ),
     "C06": dict(
-        level_text="Every balance answer in generated histories (multi-tip, truncated, boundary amounts, absent/genesis addresses, three repetitions) must equal the reference value for some current tip; the query must leave the snapshot digest unchanged.",
+        level_text="Every balance answer in generated histories (multi-tip, truncated, boundary amounts, absent/genesis addresses, three repetitions) must equal the reference value for some current tip; the query must leave the snapshot digest unchanged. Every second process also queries untouched wallets WHILE the real truncate runs (answers must equal the pre-truncation value).",
         design_ref="DESIGN.md §4 C06",
         level_note="Uses the node's own stored checkpoint figure (C07 judges that figure). Cross-node agreement follows from judging every node against the same reference.",
         technique="stateful property-based testing (rapid), differential against math/big reference per tip",
     ),
     "C09": dict(
-        level_text="After every operation of generated histories the snapshot is checked for acyclicity (Kahn), edge set == declared live parents, missing parents checkpointed, id == hash == independently recomputed digest and signatures.",
+        level_text="After every operation of generated histories the snapshot is checked for acyclicity (Kahn), edge set == declared live parents, missing parents checkpointed, id == hash == independently recomputed digest and signatures. Part of the transactions are receiver-countersigned, and crafted vertices are preceded by tampered copies (one sealed field changed, seal left alone) that must be refused.",
         design_ref="DESIGN.md §4 C09",
         level_note="Digest/signature recomputation is the harness's own (harness/ref), written from the message layout.",
         technique="stateful property-based testing (rapid), structural invariants recomputed from snapshots",
@@ -56,13 +56,13 @@ META = {
     "C10": dict(
         level_text="Rule-breaking offers (self-sealed, genesis wallet as issuer, empty transaction) through proposal, gossip and orphan replay at random positions of generated histories; every vertex of every node is scanned after every operation.",
         design_ref="DESIGN.md §4 C10",
-        level_note="The sync entry point is exercised by the C14 check.",
+        level_note="Synced ledgers: an enumerated sync clause (a peer's honest stream + one rule-breaking vertex of 5 kinds x 3 payloads x tip/mid-DAG, and four rule-breaking requests sent WHILE the stream is being read); a node that ends up loaded must not hold such a vertex.",
         technique="stateful property-based testing (rapid), snapshot scan invariant",
     ),
     "C17": dict(
         level_text="Sequential call sequences are model-checked step by step against a map (full shrinking, fresh cache per case); concurrent batches on shared addresses are compared with {saves} - {removals} at quiescence over many rounds and GOMAXPROCS settings.",
         design_ref="DESIGN.md §4 C17",
-        level_note="Eviction and the 5-minute expiry are out of reach (bigcache reads the wall clock). Concurrent clause is sampling.",
+        level_note="Eviction and the 5-minute expiry are out of reach (bigcache reads the wall clock). Concurrent clause is sampling; it includes several callers saving the SAME transaction and removals racing with a re-save. Sequences also contain saves/removals of cached balances on the same cache object with the key strings the notary can be made to pass.",
         technique="stateful model-based property testing (rapid) + randomized concurrent batches against a map model",
     ),
     "C19": dict(
@@ -72,7 +72,7 @@ META = {
         technique="property-based testing: round-trip oracle over boundary-product enumeration + rapid random fill",
     ),
     "C13": dict(
-        level_text="All delivery permutations of three 4/5-vertex segment shapes plus random schedules (2-20 vertex segments with diamonds and two-depth parents, duplicates, retry steps, local proposals, invalid vertices); the final target ledger must contain the whole valid history with its declared edges, nothing twice, empty buffer.",
+        level_text="A long-lived target node taken through 3-9 rounds of child-before-parent fans and chains (up to 495 parked at once, > 500 retries over its lifetime), all delivery permutations of three 4/5-vertex segment shapes plus random schedules (2-20 vertex segments with diamonds and two-depth parents, duplicates, retry steps, local proposals, invalid vertices); the final target ledger must contain the whole valid history with its declared edges, nothing twice, empty buffer.",
         design_ref="DESIGN.md §4 C13",
         level_note="The premise (V is valid) is established per case by a reference node fed parents-first; cases where it rejects are discarded and counted. Retry goes through the hook calling the real admission path.",
         technique="property-based testing: schedule/permutation enumeration + rapid schedules, differential against parents-first delivery",
@@ -80,7 +80,7 @@ META = {
     "C07": dict(
         level_text="Each case performs one or two real truncations of a generated two-node ledger (>=1001 filler vertices each) and compares per-tip per-address balances across the cut, by-hash reads, moved == checkpointed, checkpoint funds == net flow of checkpointed vertices, refusal of re-submissions with unchanged snapshot, and the twin node's decisions on follow-ups.",
         design_ref="DESIGN.md §4 C07",
-        level_note="A truncation error is accepted only when some tip has fewer than 1000 live ancestors (premise of the call) and then the ledger must be unchanged. Addresses whose true checkpointed net is negative (genesis issuer) are excluded from the funds equality. 'Truncation racing with proposals' is only sampled by C18.",
+        level_note="A truncation error is accepted only when some tip has fewer than 1000 live ancestors (premise of the call) and then the ledger must be unchanged. Addresses whose true checkpointed net is negative (genesis issuer) are excluded from the funds equality. 'Truncation racing with proposals': one race scenario per process (4 in thorough) runs the real truncate against readers of untouched wallets and proposers of an overdrawing spend; interleavings are sampled.",,
         technique="stateful property-based testing (rapid) with a twin-node differential and before/after metamorphic relations",
     ),
     "C04": dict(
@@ -98,17 +98,17 @@ META = {
     "C16": dict(
         level_text="Generated call sequences by honest and dishonest clients against the real notary service object, judged by a reference state machine (awaiting, sealed, tentative, challenge) after every step and by authentication implications on every read; concurrent copies of one request are included.",
         design_ref="DESIGN.md §4 C16",
-        level_note="Success of a valid request is not demanded (the statement does not promise it; the sealing step may legitimately fail while it drops an invalid tip) - only that invalid requests change nothing, sealing needs the receiver, reads need the signed current challenge. Challenge expiry is not advanced.",
+        level_note="Success of a valid request is not demanded (the statement does not promise it; the sealing step may legitimately fail while it drops an invalid tip) - only that invalid requests change nothing, sealing needs the receiver, reads need the signed current challenge. Challenge expiry uses the real clock in one scenario per run (1 s longevity: untouched, and presented at 0.6 s with a valid / junk signature; refused at 1.25 s).",
         technique="stateful model-based property testing (rapid) against a reference state machine",
     ),
     "C11": dict(
         level_text="A virtual network of real gossip nodes (real ledgers, awaiting caches and duplicate-suppression memories) whose peer tables hold harness stubs; the harness is the scheduler. Every connected labelled graph on 2-4 nodes x every origin x {vertex, awaiting transaction, propose-then-confirm flow} with depth-first enumeration of delivery orders (capped per graph/origin in quick), duplicated deliveries, items with broken signatures, and random graphs on 5-6 nodes.",
         design_ref="DESIGN.md §4 C11, §3.3",
-        level_note="Message loss and the 20 s suppression window are outside the fault model. Exhaustive flag is true only when no enumeration hit its cap.",
+        level_note="Message loss is outside the fault model. The suppression window is not waited out in real time: a switchable wrapper around the node's real recent-hash memory stands for 'the window has elapsed' when a late duplicate of a vertex is delivered. Exhaustive flag is true only when no enumeration hit its cap.",
         technique="property-based testing with harness-owned message scheduling: exhaustive small-scope schedule enumeration + rapid schedules, invariants over the recorded message history",
     ),
     "C12": dict(
-        level_text="C11's network with one node replaced by an adversarial relay played by the harness, assembling gossiper lists from garbage, entries harvested from other items, forged and sybil entries; all relay positions on 3-4 node graphs plus sampled 5-node graphs, random delivery orders.",
+        level_text="C11's network with one node replaced by an adversarial relay played by the harness, assembling gossiper lists from garbage of correct lengths, malformed entries (wrong digest length, no address, nil) placed before valid ones, entries harvested from other items, forged, own and sybil entries; all relay positions on 3-4 node graphs plus sampled 5-node graphs, random delivery orders.",
         design_ref="DESIGN.md §4 C12",
         level_note="The adversary forwards intact items; amplification (an extra forward burst at the origin) is observed and not judged, as the statement is about suppression.",
         technique="property-based testing with an adversarial relay model and harness-owned scheduling",
@@ -116,11 +116,11 @@ META = {
     "C15": dict(
         level_text="Product of per-field shape classes for every request type of the three services (hundreds of thousands of requests per run) plus vertices handed to the real sync / missing-parent clients by a malicious in-memory peer, each under recover with ledger snapshot, awaiting lists and peer table compared on every error return; random combinations on top.",
         design_ref="DESIGN.md §4 C15",
-        level_note="In-process calls on the real service objects; coverage-guided native fuzzing of serialized requests is not part of the quick/thorough commands (see DESIGN.md). One known finding keyed by its state-change pattern.",
+        level_note="In-process calls on the real service objects; coverage-guided native fuzzing of serialized requests (FuzzC15) runs only in the thorough tier for a fixed wall-clock time. One known finding keyed by its state-change pattern.",
         technique="property-based testing: exhaustive shape-class product + rapid, no-panic and unchanged-on-rejection oracles",
     ),
     "C18": dict(
-        level_text="Randomized concurrent workloads over the ledger API, the retry/truncate triggers, the gossip handler and the awaiting cache on a -race build, long enough for the 2 s retry tick to fall inside; the detector's reports are parsed and attributed to repository function pairs.",
+        level_text="Randomized concurrent workloads over the ledger API, the retry/truncate triggers, the gossip handler and the awaiting cache on a -race build, long enough for the 2 s retry tick to fall inside, some of them on a node whose OWN truncation loop fires during the workload; the detector's reports are parsed and attributed to repository function pairs.",
         design_ref="DESIGN.md §4 C18",
         level_note="Sampling of interleavings: a green run means no race executed in the sampled schedules. Workload plans are generated by rapid (Example) but executed outside rapid.Check, because a detected race marks testing.T failed and aborts the library.",
         technique="randomized concurrency testing with the Go race detector as oracle (rapid-generated workloads)",
